@@ -18,6 +18,8 @@ import NflowsModel.Lemmas.StructureExecQuad
 import NflowsModel.Lemmas.StructureExecRQTails
 import NflowsModel.Lemmas.CubicInverseWhole
 import NflowsModel.Lemmas.LinWhole
+import NflowsModel.Lemmas.CubicLayers
+import NflowsModel.Lemmas.CouplingJacobian
 /-!
 # C02 — inverse undoes forward (both orders) and returns the negated log-abs-det
 
@@ -412,5 +414,35 @@ theorem linear_program_roundtrip (e : Float → ℝ) (box : Box) (eps : Float) (
       ∀ y, e box.bottom ≤ y → y ≤ e box.top →
         LinWhole.invLd e box eps up y = - LinWhole.ld e box eps up (LinWhole.inv e box eps up y)) :=
   ⟨LinWhole.val_inv hv, LinWhole.inv_val hv, fun hl y h0 h1 => LinWhole.invLd_eq_neg_ld hv hl y h0 h1⟩
+
+/-! ## cubic elements inside layers -/
+
+/-- **executed coupling layer with cubic elements**: exact round trip on whole arrays when every parameter slice is a valid
+    configuration whose bins are all exact (`CubicParamsExact`: the quadratic fallback is not taken, or the bin is exactly
+    quadratic); without that hypothesis `CubicLayers.coupling_cubic_rev_approx_real` gives exact log-det negation and an element-wise
+    error below `quadratic_threshold · (top − bottom)`, and `cubic_el_round_trip_counterexample` shows the hypothesis is forced -/
+theorem exec_cubic_coupling_roundtrip (e : Float → ℝ) (c : ElCfg) (hk : c.kind = "cubic") (ht : c.tails = false)
+    (hc : CubicInverseWhole.InvConsts e (CubicLayers.cubicCfgOf c))
+    (mask : List ℝ) (B S : Nat) (x params uparams uparams' : Array ℝ)
+    (hv : CubicLayers.CubicParamsExact e c (transformIdx (NF.realX e) mask).length S params B)
+    (herr : (couplingApply (NF.realX e) c mask B S x params false none uparams).err = none)
+    (hsz : B * mask.length * S ≤ x.size) :
+    let fwd := couplingApply (NF.realX e) c mask B S x params false none uparams
+    let inv := couplingApply (NF.realX e) c mask B S fwd.out params true none uparams'
+    inv.out = x ∧ inv.err = none ∧ inv.condIn = fwd.condIn ∧ ∀ b, b < B → inv.ld[b]? = (fwd.ld[b]?).map (fun l => -l) :=
+  CubicLayers.coupling_cubic_roundtrip_real hk ht hc mask B S x params uparams uparams' hv herr hsz
+
+/-- **executed coupling layer, conditioner in the loop, RQ with tails**: the inverse pass RE-RUNS the conditioner on its own
+    input (as coupling.py does) and still undoes the forward pass, both orders, any conditioner function -/
+theorem exec_coupling_with_conditioner_roundtrip (e : Float → ℝ) (c : ElCfg) (hc : NF.StructureExec.RQTailsCfgValid e c)
+    (hp : TailsWhole.PadExact e (NF.StructureExec.tMD c) (NF.StructureExec.tBe c)) (mask : List ℝ) (B : Nat)
+    (net : Array ℝ → Array ℝ) (x : Array ℝ) (hsz : B * mask.length ≤ x.size) :
+    (let fwd := CouplingJacobian.couplingForward (NF.realX e) c mask B net x
+     let inv := CouplingJacobian.couplingInverse (NF.realX e) c mask B net fwd.out
+     fwd.err = none ∧ inv.err = none ∧ inv.out = x ∧ ∀ b, b < B → inv.ld[b]? = (fwd.ld[b]?).map (fun l => -l))
+    ∧ (let inv := CouplingJacobian.couplingInverse (NF.realX e) c mask B net x
+       let fwd := CouplingJacobian.couplingForward (NF.realX e) c mask B net inv.out
+       inv.err = none ∧ fwd.err = none ∧ fwd.out = x ∧ ∀ b, b < B → fwd.ld[b]? = (inv.ld[b]?).map (fun l => -l)) :=
+  CouplingJacobian.coupling_net_rq_tails_roundtrip e c hc hp mask B net x hsz
 
 end Properties.C02
